@@ -57,7 +57,29 @@ def setup(ctx, mon):
     D.setup_monitors(ctx, mon, ANCHORS)
 
 
+# inputs on which a defect was once observed (each repaired in /repo, see known_findings.json): kept in the workload of
+# shard 0 so that the repaired behaviour stays under the oracle whatever the random draw
+_X = ('x',)
+CORPUS = [
+    dict(tree=('powi', _X, 3), x=[-4.0], method='multicomplex', n=2, order=2),                          # 4ed08fc
+    dict(tree=('div', ('c', 1.0), _X), x=[-4.0], method='multicomplex', n=2, order=2),
+    dict(tree=('fn', 'tan', _X), x=[0.3], method='multicomplex', n=2, order=2),
+    dict(tree=('fn', 'tanh', ('div', ('c', 2.0), _X)), x=[-0.002891589046010931], method='multicomplex', n=2, order=5),   # 22f79f2
+    dict(tree=('mul', ('mul', _X, ('fn', 'cos', _X)), ('fn', 'tanh', ('div', ('c', 2.0), _X))), x=[-0.002891589046010931],
+         method='multicomplex', n=2, order=5),
+    dict(tree=('powi', ('div', ('sub', ('c', 1.5), _X), ('fn', 'cosh', _X)), 3), x=[-54.30862401129494], method='multicomplex', n=2, order=7),
+    dict(tree=('powi', ('fn', 'expm1', _X), 2), x=[0.7], method='multicomplex', n=2, order=2),           # 61d1205
+    dict(tree=('fn', 'arcsinh', _X), x=[-3.0], method='multicomplex', n=1, order=2),                    # 44dc5fb
+    dict(tree=('fn', 'sqrt', _X), x=[0.0011, 1.0], method='central', n=1, order=2, shape=[2]),           # 2eb6030
+    dict(tree=('fn', 'exp', ('mul', ('ci', 1.0), _X)), x=[0.5], method='central', n=1, order=2, cplx=True),   # 4b12ea2
+    dict(tree=('fn', 'sin', _X), x=[0.3, 1.2, 2.0], method='multicomplex', n=1, order=2, shape=[3]),     # 8280d5f
+]
+
+
 def cases(rng, tier, shard, nshards):
+    if shard == 0:
+        for c in CORPUS:
+            yield dict(dict(shape=[], step=dict(kind='default'), cplx=False, stationary=False, int_x=False), **c)
     total = BUDGET[tier] // nshards
     ncells = sum((D.NMAX[m] + 1) * 8 for m in D.METHODS)
     k = shard
